@@ -584,6 +584,9 @@ class Oracles:
             raised = e
         finally:
             self.flushes_active -= 1
+            for r in pm.reqs:
+                if r.spawner is not None and r.spawner.done():
+                    r.meta_exc_seen = True  # type: ignore[attr-defined]   (its clear() may have taken what a cancel_all() moved meanwhile)
         if w.teardown:
             return
         if self.forget_epoch != epoch:
